@@ -64,6 +64,7 @@ RPREP = [
     {"hist": [["rename", [["w", "v"]]]]},  # name clash with the left v
     {"alias": True},
     {"hist": [["mutate", [["w", ["coalesce", src("R", "w"), lit(7)]]]]]},  # not null for a row of nulls
+    {"hist": [["mutate", [["w", ["fill_null", src("R", "w"), lit(7)]]]], ["alias"]], "alias_last": True},  # ... behind an alias()
 ]
 
 
@@ -76,8 +77,8 @@ def join_events(lalias: bool, rpreps):
         side = {"src": "R"}
         ralias = False
         if rp:
-            side.update(rp)
-            ralias = bool(rp.get("alias"))
+            side.update({k_: v_ for k_, v_ in rp.items() if k_ != "alias_last"})
+            ralias = bool(rp.get("alias") or rp.get("alias_last"))
         rk = ["col", "right", "k"] if ralias else src("R", "k")
         rw_name = "v" if rp and rp.get("hist") and rp["hist"][0][0] == "rename" else "w"
         hidden_w = bool(rp and rp.get("hist") and rp["hist"][0][0] == "select")
@@ -92,6 +93,7 @@ def join_events(lalias: bool, rpreps):
             [["eq", rk, lk]],  # right column first
             [["eq", rk, rw]],  # an equality over the right table only (a predicate, not a join key; refused by full joins)
             [["and", ["eq", lk, rk], ["eq", lv, lit(1)]]],  # a key and an equality with a constant
+            [["eq", lk, rk], ["eq", lit(1), rw]],  # ... with the constant first
             [["eq", ["add", lk, rk], lit(2)]],  # an equality that mixes both tables in one argument
         ]
         for how in ("inner", "left", "full"):
@@ -136,7 +138,9 @@ CHAIN_TRIPLES = [
 
 
 def chain_worlds():
-    return [{"tables": {"L": {"cols": L_COLS, "rows": lr}, "R": {"cols": R_COLS, "rows": rr}, "S": {"cols": S_COLS, "rows": sr}}}
+    # (a table named L_1: the name a SQL backend may choose as alias for a second occurrence of L)
+    return [{"tables": {"L": {"cols": L_COLS, "rows": lr}, "R": {"cols": R_COLS, "rows": rr}, "S": {"cols": S_COLS, "rows": sr},
+                        "L_1": {"cols": [["k", "int"], ["z", "int"]], "rows": [[1, 7], [2, 8], [9, 9]]}}}
             for lr, rr, sr in CHAIN_TRIPLES]
 
 
@@ -151,12 +155,14 @@ def chain_first():
         for how in ("inner", "left", "full"):
             out.append(["join", side, how, [["eq", src("L", "k"), rk]], {}])
         out.append(["join", side, "cross", [], {}])
+    # a self-join (the second occurrence of L gets a generated alias in SQL)
+    out.append(["join", {"src": "L", "alias": "X"}, "inner", [["eq", src("L", "k"), ["col", "right", "k"]]], {}])
     return out
 
 
 def chain_second(first):
     out = []
-    r_alive = not first[1].get("alias")
+    r_alive = not first[1].get("alias") and first[1].get("src") == "R"
     for sp in (None, {"hist": [["filter", [["gt", src("S", "u"), lit(1)]]]]}):
         side = {"src": "S"}
         if sp:
@@ -167,6 +173,7 @@ def chain_second(first):
         for how in ("inner", "left", "full"):
             for on in ons:
                 out.append(["join", side, how, on, {}])
+    out.append(["join", {"src": "L_1"}, "inner", [["eq", src("L", "k"), src("L_1", "k")]], {}])
     return out
 
 
@@ -185,9 +192,12 @@ def chains_alphabet(st, hist):
 def chain_probes(ex, hist, mstates):
     if hist[-1][0] != "join":
         return []
-    refs = [src("L", "k"), src("L", "v"), src("R", "k"), src("R", "w")]
-    if sum(1 for e in hist[1:] if e[0] == "join") == 2:
-        refs += [src("S", "k"), src("S", "u")]
+    joins = [e for e in hist[1:] if e[0] == "join"]
+    refs = [src("L", "k"), src("L", "v")]
+    for j in joins:
+        t = j[1].get("src")
+        if not j[1].get("alias"):
+            refs += [src(t, c) for c, _ in ex.world["tables"][t]["cols"]]
     return [["mutate", [["probe", r]]] for r in refs]
 
 
